@@ -392,8 +392,8 @@ func pathEquals(o *Oracle, elems []*engine.Opaque, path []PElem) *engine.Term {
 }
 
 // layersMatch: the wrapErrors layers (outermost first) are an in-order subsequence of the
-// field/index elements of the target path, and when the path ends in a field or index the
-// innermost layer names exactly that element.
+// field/index elements of the target path, and the innermost layer names the innermost field or
+// index of the path (also when map keys follow it).
 func layersMatch(layers []errLayer, path []PElem) bool {
 	type fi struct {
 		field string
@@ -434,7 +434,9 @@ func layersMatch(layers []errLayer, path []PElem) bool {
 			return false
 		}
 	}
-	if len(path) > 0 && path[len(path)-1].Kind != "key" {
+	// the innermost layer names the innermost field or index of the path (map keys have no message: the
+	// method that converts the entries names the field or index it was setting when it reached the map)
+	if len(want) > 0 {
 		if len(layers) == 0 {
 			return false
 		}
